@@ -108,6 +108,66 @@ func c11Execute(c *c11Case, base string, rec *vh.Recorder) (fail *vh.Failure, la
 				return vh.Failf("harness", "create: %d", code), nil, false
 			}
 			sessions = append(sessions, &c11Sess{cred: cred})
+		case "inject":
+			// A request on the session's OWN route, with its own valid secret, whose JSON body carries
+			// members beyond the documented {Data, ClientMessageId}: it may act on that session only.
+			var a, b *c11Sess
+			for _, s := range sessions {
+				if s.deleted {
+					continue
+				}
+				if a == nil {
+					a = s
+				} else if b == nil {
+					b = s
+				}
+			}
+			if a == nil || b == nil {
+				continue
+			}
+			if st.Sess%2 == 1 {
+				a, b = b, a
+			}
+			cmid++
+			fields := map[string]interface{}{"Data": fmt.Sprintf("NICK hijack%d", cmid), "ClientMessageId": cmid}
+			switch st.Method {
+			case "session":
+				fields["Session"] = map[string]interface{}{"Id": b.cred.Num}
+			case "delete":
+				fields["Session"] = map[string]interface{}{"Id": b.cred.Num}
+				fields["Type"] = 1
+				fields["Data"] = "bye"
+			case "id":
+				fields["Id"] = map[string]interface{}{"Id": 12345, "Reply": 7}
+				fields["UnixNano"] = 1
+			case "config":
+				fields["Type"] = 5
+				fields["Data"] = "SessionExpiration = \"1s\"\n"
+				fields["Revision"] = 99
+			}
+			body, _ := json.Marshal(fields)
+			before := observe()
+			cfgBefore := n.private("GET", "/config", nil, "robustirc", nodePassword, nil).Body.String()
+			r := n.public("POST", a.cred.Id+"/message", body, map[string]string{"X-Session-Auth": a.cred.Auth})
+			after := observe()
+			lab["c11:own-route-with-extra-body-members/"+st.Method] = true
+			nontrivial = true
+			needle := fmt.Sprintf(".Id=%d,", b.cred.Num)
+			for _, d := range vh.DiffDumps(before.state, after.state, 50) {
+				if strings.Contains(d, needle) {
+					return vh.Failf("request-on-own-route-acted-on-another-session", "step #%d: POST on the route of session %s with that session's secret and body %s (answered %d) changed session %s: %s", si, a.cred.Id, body, r.Code, b.cred.Id, d), keys2(lab), true
+				}
+			}
+			if _, err := ircServer.GetSession(robust.Id{Id: b.cred.Num}); err != nil {
+				b.deleted = true
+				return vh.Failf("request-on-own-route-acted-on-another-session", "step #%d: POST on the route of session %s with body %s (answered %d) ended session %s", si, a.cred.Id, body, r.Code, b.cred.Id), keys2(lab), true
+			}
+			if cfgAfter := n.private("GET", "/config", nil, "robustirc", nodePassword, nil).Body.String(); cfgAfter != cfgBefore {
+				return vh.Failf("session-route-changed-the-configuration", "step #%d: POST on a session route with body %s (answered %d) changed the network configuration", si, body, r.Code), keys2(lab), true
+			}
+			if _, err := ircServer.GetSession(robust.Id{Id: a.cred.Num}); err != nil {
+				a.deleted = true
+			}
 		case "login":
 			if len(sessions) == 0 {
 				continue
@@ -363,6 +423,8 @@ func TestVerifC11(t *testing.T) {
 					Route:  rapid.SampledFrom([]string{"post", "get", "delete"}).Draw(rt, "route"),
 					Target: rapid.SampledFrom([]string{"own", "own", "other", "deleted", "never", "malformed"}).Draw(rt, "target"),
 					Cred:   rapid.SampledFrom([]string{"none", "empty", "wrong", "truncated", "extended", "other", "other", "deleted", "correct"}).Draw(rt, "cred")}
+			case 9:
+				st = c11Step{Kind: "inject", Sess: rapid.IntRange(0, 1).Draw(rt, "sess"), Method: rapid.SampledFrom([]string{"session", "delete", "id", "config"}).Draw(rt, "extra")}
 			default:
 				st = c11Step{Kind: "private", Method: rapid.SampledFrom([]string{"GET", "POST", "GET", "POST", "DELETE", "PUT", "HEAD"}).Draw(rt, "method"),
 					Auth:     rapid.SampledFrom([]string{"none", "wronguser", "wrongpw", "empty", "trimmed", "correct"}).Draw(rt, "auth"),
